@@ -44,13 +44,13 @@ def run(ctx):
         "frames are within the client's int32 length (size_le_limits: max-msg-size + 30 < 2^31)",
         "connection model: IDENTIFY (feature upgrades, output buffer change) is accepted only before SUB and "
         "message frames are sent only to subscribed clients — as protocolV2.IDENTIFY / messagePump enforce",
-        "PARTIAL (audit A2, until fix F30 is committed): on the tree before F30 'every output byte goes to the negotiated "
-        "transport' holds only for connections that never change the output buffer after an upgrade "
-        "(hypothesis NoRebufferAfterUpgrade of Props.C07Stack.output_on_negotiated_transport_partial; witness "
-        "output_on_negotiated_transport_false, open finding second-identify-cleartext); upgrade_loses_nothing speaks about "
-        "the F30 tree (fixed_tree_is_round6_model)",
-        "writer-stack model: an upgrade installs a clean new stack; before F30 snappy negotiated by a later IDENTIFY after "
-        "deflate is not (open finding snappy-after-deflate-garbled, oracle-only replay), outside the model; the server's "
+        "'every output byte goes to the negotiated transport' holds for EVERY schedule on this tree (Props.C07Stack.this_tree_full over "
+        "Tie.WireStack.treeFixed, which the facts decide to be true: F30 = /repo d6aa4e3 is committed and Tie.WireStack accepts only its "
+        "shape). About the tree BEFORE F30: output_on_negotiated_transport_false / second_identify_leaks_cleartext (witness; finding "
+        "second-identify-cleartext, listed fixed, replayed on every run) and output_on_negotiated_transport_partial (hypothesis "
+        "NoRebufferAfterUpgrade); upgrade_loses_nothing speaks about the F30 tree (fixed_tree_is_round6_model)",
+        "writer-stack model: an upgrade installs a clean new stack (with F30 also snappy negotiated by a later IDENTIFY after "
+        "deflate: finding snappy-after-deflate-garbled, listed fixed, oracle-only replay on every run); the server's "
         "read side after a second upgrade is not modelled",
     ]
     ctx.rule = ("codec: generated envelopes (every timestamp class incl. negative / extreme, attempts 0/255/256/65535/"
@@ -83,7 +83,8 @@ def run(ctx):
         e1util.replay(ctx, binp, [("TestVerifWireCorr", "wire", lambda o: True)], wire_oracle)
         return
     else:
-        run_wire(ctx, binp, corr_broken, ctx.budget(8000, 60000))
+        # round 10 budget: thorough 60000 -> 40000 cases (C07 thorough ran 728-926 s on a loaded box; target <= 8 min)
+        run_wire(ctx, binp, corr_broken, ctx.budget(8000, 40000))
     # --- end-to-end oracle (network API + white-box quiescence only) ----------------------------
     ebin = ctx.go_test_binary("nsqd", ["e1/e1_helpers_test.go", "e1/e2e_test.go", "e1/pubsub_test.go"], "e1e2e")
     if not ebin:
@@ -95,7 +96,8 @@ def run(ctx):
     # --- audit A2: which transport the output goes to when IDENTIFY is sent more than once -------------
     run_stack(ctx, corr_broken)
     # --- engine E9: the real go-diskqueue against its model (discharges the disk-queue assumption) -----
-    e9_dq.leg(ctx, corr_broken)
+    # thorough: 300 op sequences x 120 steps here (C05 and E9 run the same leg with 600; round 10 budget)
+    e9_dq.leg(ctx, corr_broken, thorough_n=300)
     # --- search phase ---------------------------------------------------------------------------
     if (ctx.broken_ties or corr_broken) and not ctx.violations:
         limit = ctx.budget(60, 600)
@@ -107,7 +109,7 @@ def run(ctx):
                 break
             ctx.seed = seed0 + 1000 * s
             if binp:
-                run_wire(ctx, binp, [], ctx.budget(8000, 60000), search=True)
+                run_wire(ctx, binp, [], ctx.budget(8000, 40000), search=True)
             if ebin and not ctx.violations and time.time() < t_end - 20:
                 run_e2e(ctx, ebin, [], combos=ctx.budget(24, 0), n=40, search=True)
             if ctx.violations:
@@ -131,7 +133,8 @@ def stack_tree_fixed():
 
 def run_stack(ctx, corr_broken):
     """Writer-stack leg (Model.WireStack): white-box correspondence `stack` + network double-IDENTIFY oracle.
-    The unfixed tree (before F30) reproduces the known finding `second-identify-cleartext`."""
+    F30 is committed: a tree with the unfixed shape breaks Tie.WireStack AND reproduces `second-identify-cleartext` (listed
+    fixed) as a VIOLATION with the replay corpus/C07/fixed/second_identify.stack."""
     sbin = ctx.go_test_binary("nsqd", ["e1/e1_helpers_test.go", "e1/reident_test.go"], "e1stack")
     if not sbin:
         ctx.broken_ties.append("harness e1/reident_test.go does not compile against the current tree")
@@ -139,8 +142,10 @@ def run_stack(ctx, corr_broken):
         return
     fixed = stack_tree_fixed()
     reproduced = False
-    key = "second-identify-cleartext" if not fixed else "second-identify-cleartext:tree-has-F30"
-    known = os.path.join(os.path.dirname(os.path.dirname(os.path.abspath(__file__))), "corpus", "C07", "known",
+    key = "second-identify-cleartext"   # F30 (/repo d6aa4e3) is committed: listed fixed, a reproduction is a VIOLATION
+    if fixed is not True:
+        corr_broken.append("Tie.WireStack.treeFixed is not `true`: SetOutputBuffer no longer builds the writer on c.outputDest (F30)")
+    known = os.path.join(os.path.dirname(os.path.dirname(os.path.abspath(__file__))), "corpus", "C07", "fixed",
                          "second_identify.stack")
     ok, ops, impl, out = e1util.run_corr(ctx, sbin, "TestVerifStackCorr", "stack", ctx.budget(600, 6000),
                                          {"VERIF_CORPUS": known, "VERIF_STACK_DS": "1" if fixed else "0",
@@ -161,11 +166,11 @@ def run_stack(ctx, corr_broken):
                 k = key
                 reproduced = True
             elif wk == "snappy-after-deflate-garbled":
-                k = wk if not fixed else wk + ":tree-has-F30"
+                k = wk
             else:
                 k = "stack:" + wk
             ctx.violation(k, l[:700], "TestVerifStackCorr (white-box), seed %s; first failing lines:\n%s\n"
-                          "replay: corpus/C07/known/second_identify.stack through VERIF_CORPUS\n"
+                          "replay: corpus/C07/fixed/second_identify.stack through VERIF_CORPUS\n"
                           % (ctx.seed, "\n".join(fails[:5])))
         model = e1util.model_of(ctx, "stack")
         for o, i in zip(ops, impl):
